@@ -269,7 +269,7 @@ def main():
         json.dump(manifest, fh, indent=1)
 
 
-HOOK_COMMITS = ['728249e', 'ba8cfeb']
+HOOK_COMMITS = ['728249e', 'ba8cfeb', '6f3e21f']
 
 if __name__ == '__main__':
     main()
